@@ -369,13 +369,13 @@ def run_random_case(ctx, kind_, idx):
                 choices = ["shift_x", "scale_x"] + (["scale_y_pow2"] if adaptive else ["shift_y", "scale_y"])
                 mp = choices[int(rng.integers(0, len(choices)))]
                 if mp == "scale_y_pow2":
-                    op, arg = "scale_y", float(rng.choice([2.0, -4.0, 0.5]))
+                    op, arg = "scale_y", float(rng.choice([2.0, -4.0, 0.5, 2.0 ** -40, 2.0 ** 33, -2.0 ** -52]))
                 elif mp in ("shift_x", "shift_y"):
                     op, arg = mp, float(rng.normal(0, 5))
                 elif mp == "scale_x":
                     op, arg = mp, float(rng.choice([2.0, 0.5, float(rng.lognormal(0, 1))]))
                 else:
-                    op, arg = "scale_y", float(rng.choice([3.0, -0.7, float(rng.normal(0, 2)) or 1.0]))
+                    op, arg = "scale_y", float(rng.choice([3.0, -0.7, 1e-12, 1e9, float(rng.normal(0, 2)) or 1.0]))
                 getattr(wv, op)(arg)                          # after the pipeline
                 getattr(wv_b, op)(arg)                        # before the pipeline
                 wv_b.recreate_from_average(n, rfa_class=R.cls(strat), **kw)
